@@ -428,7 +428,7 @@ func genC20(g *Gen, tier string, w *bufio.Writer) {
 	}
 	n, maxLen := 20000, 14
 	if tier == "thorough" {
-		n, maxLen = 300000, 40
+		n, maxLen = 200000, 40
 	}
 	for i := 0; i < n; i++ {
 		c20Case(g, w, maxLen)
